@@ -128,6 +128,7 @@ pub fn property() -> Property {
     Property {
         id: "C01",
         subs: vec![sub::<Hist>()],
+        fuzz: vec![FuzzSpec { target: "bdd_ops", runs: 60000, max_len: 400 }],
         assumptions: vec![
             "truth tables over <= 8 variables; histories of <= 60 operations",
             "the walker reads BddPtr/BddNode public fields; the oracle is a 256-bit truth table written from the operation definitions (compose = exists v. (v<=>g) & f as documented)",
